@@ -82,6 +82,25 @@ Fixpoint kalman_path (n m k l : nat) (A C G Hm : mat) (st : mat * mat) (ys : lis
               end
   end.
 
+(* any sequence of the three public operations (prior_to_filtered(y), filtered_to_forecast(), update(y)),
+   states after each operation; stops at the first LinAlgError *)
+Inductive kop := KFilter (y : mat) | KForecast | KUpdate (y : mat).
+Definition kalman_op (n m k l : nat) (A C G Hm : mat) (st : mat * mat) (o : kop) : option (mat * mat) :=
+  match o with
+  | KFilter y => prior_to_filtered n k l G Hm st y
+  | KForecast => Some (filtered_to_forecast n m A C st)
+  | KUpdate y => update n m k l A C G Hm st y
+  end.
+Fixpoint kalman_ops (n m k l : nat) (A C G Hm : mat) (st : mat * mat) (ops : list kop)
+  : list (option (mat * mat)) :=
+  match ops with
+  | [] => []
+  | o :: r => match kalman_op n m k l A C G Hm st o with
+              | None => [None]
+              | Some st' => Some st' :: kalman_ops n m k l A C G Hm st' r
+              end
+  end.
+
 (* stationary_values, given Sigma_infinity (the solution returned by
    solve_discrete_riccati(A', G', Q, R), modelled in C06):
      K_infinity = (A Sigma_inf) G' inv(G (Sigma_inf G') + R) *)
